@@ -180,7 +180,7 @@ Qed.
 
 Lemma detect_verdict_firstn bs f : detect_verdict (firstn 4 bs) f = detect_verdict bs f.
 Proof.
-  unfold detect_verdict. rewrite candidates_firstn.
+  unfold detect_verdict, detect_verdict_gen. rewrite candidates_firstn.
   rewrite !leb_firstn by lia. reflexivity.
 Qed.
 
@@ -233,7 +233,7 @@ Proof.
 Qed.
 
 Lemma detect_verdict_cls l f : detect_verdict (map cls l) f = detect_verdict l f.
-Proof. unfold detect_verdict. now rewrite candidates_cls, map_length. Qed.
+Proof. unfold detect_verdict, detect_verdict_gen. now rewrite candidates_cls, map_length. Qed.
 
 Lemma compat_cls pat l : Forall (fun k => In k specials) pat -> compat pat (map cls l) = compat pat l.
 Proof.
@@ -338,6 +338,12 @@ Qed.
 (* detector = table, for ALL byte strings and both values of final *)
 Theorem detect_spec bs f : detectencoding_str bs f = css21_detect bs f.
 Proof. unfold detectencoding_str, css21_detect. now rewrite detect_verdict_spec. Qed.
+
+(* pinned tree (before fixes/C07-utf16-bom-at-end.patch): the empty text encoded
+   as UTF-16, bytes FF FE, was declared utf-8 at the end of the input *)
+Theorem detect_spec_pinned_refuted :
+  exists bs, resolve (detect_verdict_gen false bs true) (charset_name bs) <> css21_detect bs true.
+Proof. exists [255; 254]. vm_compute. discriminate. Qed.
 
 (* ---- never wrong: a table scan that has answered keeps its answer ---- *)
 
